@@ -22,7 +22,7 @@ def seedStep (σ : Sem V) (inp : ℕ → List V) (vs : List (List V)) (x : Op ×
   | .dw s _ => List.zipWith (fun c v => σ.post n c (σ.b n c + σ.D n c v)) (idxFrom 0 (gv vs s).length) (gv vs s)
   | .fixed s c _ _ => (idxFrom 0 c).map fun co => σ.post n co (σ.b n co + mix (σ.L n co) 0 (gv vs s))
   | .fixedDw s _ => List.zipWith (fun c v => σ.post n c (σ.b n c + σ.D n c v)) (idxFrom 0 (gv vs s).length) (gv vs s)
-  | .chan s => (gv vs s).map (σ.g n)
+  | .chan s => List.zipWith (σ.g n) (idxFrom 0 (gv vs s).length) (gv vs s)
   | .add a b => List.zipWith (σ.g2 n) (gv vs a) (gv vs b)
   | .tcat ss => List.zipWith (σ.g2 n) (gv vs (ss.headD 0)) (gv vs (ss.getD 1 0))
   | .cat ss => (ss.map (gv vs)).flatten
